@@ -63,14 +63,27 @@ Print Assumptions C22_role_matrix.
 Example C22_example_sent_role :
   forall c, ebgp c = true -> c_role c = 1 -> In (CapRole 0) (o_caps (sent_open c)).
 Proof.
-  intros c He Hr. unfold sent_open. cbn [o_caps]. rewrite !in_app_iff. right. right. right. right. right.
+  intros c He Hr. unfold sent_open. cbn [o_caps].
+  repeat (apply in_or_app; right).
   unfold role_enabled. rewrite He, Hr. cbn. left. reflexivity.
+Qed.
+
+(* Our own capability list is a function of the configuration ([sent_open], transcribed from newPeer):
+   with IPv4.NextHopExtended the multiprotocol capability for IPv4 is on the wire even if
+   AdvertiseIPv4MultiProtocol is off - which is what entitles the session to enable it ([C22_negotiates]
+   speaks about this list, not about configuration flags). *)
+Example C22_example_nexthop_extended :
+  forall c, c_v4 c = true -> c_nx4 c = true ->
+  In (CapMP 1 1) (o_caps (sent_open c)) /\ In (CapExtNH 1 1 2) (o_caps (sent_open c)).
+Proof.
+  intros c H4 Hn. unfold sent_open. cbn [o_caps]. rewrite H4, Hn. cbn [andb].
+  split; apply in_or_app; right; apply in_or_app; right; apply in_or_app; right; apply in_or_app; left; cbn; tauto.
 Qed.
 
 (* Non-vacuity. *)
 Definition exc : cfg :=
   {| c_las := 65001; c_pas := 300000; c_rid := 10; c_hold := 90; c_v4 := true; c_v6 := true;
-     c_apr4 := true; c_aps4 := false; c_apr6 := false; c_aps6 := true; c_mp4 := false;
+     c_apr4 := true; c_aps4 := false; c_apr6 := false; c_aps6 := true; c_mp4 := false; c_nx4 := false;
      c_role := 1; c_strict := true; c_rr := false; c_cluster := 0; c_imp := ImpAccept; c_passive := false |}.
 Definition exo : open_msg :=
   {| o_ver := 4; o_asn := 23456; o_hold := 30; o_id := 7;
